@@ -59,6 +59,9 @@ type c08Opts struct {
 	// byte and released again); a resume whose messages were evicted may then be refused, but a resume
 	// that is served still delivers exactly what was written after its resume point
 	purge bool
+	// jsonResponse: the server answers POSTs with application/json (StreamableHTTPOptions.JSONResponse);
+	// its standalone stream is an SSE stream all the same and must be just as resumable
+	jsonResponse bool
 }
 
 func c08Run(t *testing.T, o c08Opts, ops []c08Op, hist []int) (out verifx.SearchResult) {
@@ -96,7 +99,7 @@ func c08InBubble(o c08Opts, ops []c08Op, hist []int) verifx.SearchResult {
 		}
 		return &CallToolResult{Content: []Content{&TextContent{Text: "final"}}}, nil, nil
 	})
-	h := NewStreamableHTTPHandler(func(*http.Request) *Server { return s }, &StreamableHTTPOptions{EventStore: store, Logger: quietLogger})
+	h := NewStreamableHTTPHandler(func(*http.Request) *Server { return s }, &StreamableHTTPOptions{EventStore: store, Logger: quietLogger, JSONResponse: o.jsonResponse})
 	hx := &hxTransport{Handler: h}
 	defer func() {
 		select {
@@ -419,6 +422,7 @@ func TestVerifC08(t *testing.T) {
 		{"request-stream/2025-06-18", c08Opts{version: "2025-06-18"}},
 		{"request-stream/2025-11-25-priming", c08Opts{version: "2025-11-25"}},
 		{"standalone-stream/2025-06-18", c08Opts{version: "2025-06-18", standalone: true}},
+		{"standalone-stream/2025-06-18/json-response-mode", c08Opts{version: "2025-06-18", standalone: true, jsonResponse: true}},
 		{"request-stream/2025-06-18+memory-pressure", c08Opts{version: "2025-06-18", purge: true}},
 	} {
 		env.RunSearch(res, &verifx.Search{
